@@ -443,6 +443,50 @@ example :
         .answer (300 * sec), .finish false, .answer (3600 * sec)]).answers.head?.map (·.cutUntil) = some (some (3600 * sec)) := by
   decide
 
+/-- **synthesized_denial_bounded.** Whatever the cache records for SYNTHESIZING denials
+(RFC 8198 proof index, RFC 8020 subtree cut) from a validated negative answer ends no
+later than the delegation cut it was learned under, than the hard ceiling, and than
+every component of the proof; with a cut that is not in the future nothing is recorded. -/
+theorem synthesized_denial_bounded (H now maxTTL : Int) (cut : Deadline) (bounds : List Int) :
+    (∀ e, denialExpiry H now maxTTL cut bounds = some e →
+      now < e ∧ e ≤ now + H ∧ (∀ c, cut = some c → e ≤ c) ∧ ∀ b ∈ bounds, e ≤ now + b) ∧
+    (∀ c, cut = some c → c ≤ now → denialExpiry H now maxTTL cut bounds = none) := by
+  have hceil : denialCeil H maxTTL ≤ H := by unfold denialCeil; split <;> omega
+  have hcut : boundByCut now (denialCeil H maxTTL) cut ≤ denialCeil H maxTTL ∧
+      ∀ c, cut = some c → boundByCut now (denialCeil H maxTTL) cut ≤ c - now := by
+    cases cut with
+    | none => exact ⟨Int.le_refl _, by intro c h; cases h⟩
+    | some c =>
+      refine ⟨by unfold boundByCut; split <;> omega, ?_⟩
+      intro c' hc
+      have hcc : c = c' := by injection hc
+      subst hcc
+      show (if c - now < denialCeil H maxTTL then c - now else denialCeil H maxTTL) ≤ c - now
+      split <;> omega
+  obtain ⟨hf1, hf2⟩ := foldl_minInt_le bounds (boundByCut now (denialCeil H maxTTL) cut)
+  unfold denialExpiry
+  simp only
+  generalize List.foldl (fun acc b => if b < acc then b else acc) (boundByCut now (denialCeil H maxTTL) cut) bounds = ttl at hf1 hf2 ⊢
+  refine ⟨?_, ?_⟩
+  · intro e he
+    by_cases h0 : ttl ≤ 0
+    · simp [h0] at he
+    · simp only [h0, if_false, Option.some.injEq] at he; subst he
+      refine ⟨by omega, by omega, ?_, ?_⟩
+      · intro c hc; have := hcut.2 c hc; omega
+      · intro b hb; have := hf2 b hb; omega
+  · intro c hc hle
+    have := hcut.2 c hc
+    have h0 : ttl ≤ 0 := by omega
+    simp [h0]
+
+example : denialExpiry (10800 * sec) 0 (3600 * sec) (some (5 * sec)) [300 * sec, 300 * sec] = some (5 * sec) ∧
+    denialExpiry (10800 * sec) 0 0 none [86400 * sec] = some (10800 * sec) ∧
+    denialExpiry (10800 * sec) (7 * sec) 60 (some (7 * sec)) [300 * sec] = none := by decide
+
+/-- the tree's hard ceiling for synthesized denials is the model driver's (3 h) -/
+theorem denial_ceiling_is_3h : (SdnsVerif.Gen.C08.max_denial_proof_ttl_ns : Int) ≤ 10800 * sec := by decide
+
 /-- **refresh_keeps_cut.** Whatever a background refresh writes back —
 positive answer, NXDOMAIN, NODATA or SERVFAIL — the replacement entry carries
 exactly the cut of the refresh's own resolution (never none when that is bounded),
